@@ -145,10 +145,14 @@ impl VisitorMut for AstVerifier {
                         #[cfg(feature = "luau")]
                         Err(_) => match i64::from_str_radix(&text.as_str()[2..], 2) {
                             Ok(num) => num.to_string(),
-                            Err(_) => unreachable!(),
+                            // A literal none of the above reads (a hexadecimal number of 64 bits or more,
+                            // a hexadecimal float): the formatter leaves its text as it is, so compare the text
+                            Err(_) => text.to_string(),
                         },
                         #[cfg(not(feature = "luau"))]
-                        Err(_) => unreachable!(),
+                        // A literal none of the above reads (a hexadecimal number of 64 bits or more,
+                        // a hexadecimal float): the formatter leaves its text as it is, so compare the text
+                        Err(_) => text.to_string(),
                     },
                 };
 
